@@ -30,7 +30,7 @@ def judge(routine, W, p, out):
     directed = routine in DIRECTED
     if routine in NULL:
         W0, Rc = out
-        Wref = W.copy()
+        Wref = W.astype(np.float64)  # same values, float64 container: strengths are summed in float64 whatever the input type
         np.fill_diagonal(Wref, 0)
     else:
         W0, eff = out
@@ -148,6 +148,10 @@ class _Scn(object):
                 meta['all_positive'] = True
         else:
             params = {'itr': rnd.choice((0, 1, 2, 5))}
+        if meta['wkind'] in ('int', 'unit') and rnd.random() < 0.2:
+            W = W.astype(rnd.choice((np.int64, np.int32)))  # signed integer container
+        elif rnd.random() < 0.06:
+            W = W.astype(np.float32)
         return {'scn': self.ID, 'routine': routine, 'W': enc(W), 'params': params, 'seed': sub, 'policy': rewire.pick_policy(rnd),
                 'budget': 60000, 'trace': None, 'meta': meta}
 
